@@ -183,6 +183,9 @@ impl Gen {
         });
         out.push(Item::Def { doc: vec![], blank: false, name: Some(format!("de{tag}")), parents: vec![CRef::with("Base2", vec![second_u]), CRef::with("Base", vec![second_h2])], body: None });
         out.push(Item::Defm { name: Some(format!("m{tag}")), parents: vec![CRef::with("MM", vec![defm_arg])] });
+        // a defm without a name: the uses inside it resolve like anywhere else
+        let anon_arg = self.probe("u");
+        out.push(Item::Defm { name: None, parents: vec![CRef::with("MM", vec![anon_arg])] });
     }
 
     /// two statements whose `!foreach` variables end with the operator: `bv` is unbound afterwards and
@@ -846,6 +849,10 @@ pub fn hover_programs(mut f: impl FnMut(&Program) -> bool) {
                         Item::Defvar { name: "v".into(), value: E::ClassVal("Q".into(), vec![E::ClassVal("P".into(), args.clone(), named_args.clone())], vec![]) },
                         Item::Foreach { var: "i".into(), list: E::List(vec![int(1)]), body: vec![Item::Def { doc: vec![], blank: false, name: Some("y".into()), parents: vec![CRef::with("P", vec![id("i")])], body: None }], braces: true },
                         Item::Defvar { name: "w".into(), value: E::Field(Box::new(id("x")), "h".into()) },
+                        // a class that is declared before it is defined: references to it are hinted with the definition's parameters
+                        Item::Class { doc: vec![], blank: false, name: "FwdH".into(), targs: vec![], parents: vec![], body: None },
+                        Item::Class { doc: vec![], blank: false, name: "FwdH".into(), targs: vec![TArg { ty: Ty::Int, name: "fa".into(), default: None }, TArg { ty: Ty::Str, name: "fb".into(), default: None }], parents: vec![], body: None },
+                        Item::Def { doc: vec![], blank: false, name: Some("fh".into()), parents: vec![CRef::with("FwdH", vec![int(1), E::Str("s".into())])], body: None },
                         Item::Class { doc: vec![], blank: false, name: "R".into(), targs: vec![TArg { ty: Ty::Class("P".into()), name: "rp".into(), default: None }, TArg { ty: Ty::Int, name: "ry".into(), default: None }], parents: vec![], body: None },
                         Item::Def { doc: vec![], blank: false, name: Some("r".into()), parents: vec![CRef::with("R", vec![E::ClassVal("P".into(), args.clone(), named_args.clone()), int(5)])], body: None },
                         Item::Class { doc: vec![], blank: false, name: "R2".into(), targs: vec![TArg { ty: Ty::Int, name: "ra".into(), default: None }, TArg { ty: Ty::Int, name: "rb".into(), default: Some(int(0)) }], parents: vec![], body: None },
